@@ -151,6 +151,12 @@ Theorem c10_closed_pending_regression :
     c10_closed_pending_class cfg (wtrace w cfg ops) = false.
 Proof. exact closed_pending_regression. Qed.
 
+(* D21 (repaired in /repo c2f6a01): calc_pipe's `range_mut(..take)` can no longer index past the table,
+   whatever sequence numbers an ACK names and however many segments are queued *)
+Theorem c10_calc_pipe_never_panics : forall t high_rxt high_data rtt now,
+  calc_pipe t high_rxt high_data rtt now <> None.
+Proof. exact calc_pipe_total. Qed.
+
 Print Assumptions c10_inv_init.
 Print Assumptions c10_inv_app_events.
 Print Assumptions c10_send_data_no_bug.
@@ -168,3 +174,4 @@ Print Assumptions c10_bounded_buffering.
 Print Assumptions c10_peer_payload_bug_refuted.
 Print Assumptions c10_unsent_probe_ack_bug_refuted.
 Print Assumptions c10_closed_pending_regression.
+Print Assumptions c10_calc_pipe_never_panics.
